@@ -12,6 +12,9 @@ package c16
 import (
 	"fmt"
 	"net/netip"
+	"runtime"
+	"sync"
+	"sync/atomic"
 	"testing"
 	"time"
 
@@ -24,7 +27,10 @@ import (
 	"mycoverif/linkpair"
 	"mycoverif/node"
 	"mycoverif/simnet"
+	"mycoverif/simsync"
 )
+
+var yields, stalls atomic.Int64
 
 type known struct {
 	l    peering.Link
@@ -36,6 +42,86 @@ type known struct {
 func run(e *core.Env) {
 	tp := e.Tape
 	e.StartClock()
+	// Scheduling points inside the registry code: peering/ and m/ are compiled against
+	// simsync, so every Lock/Unlock/RLock/RUnlock there calls this hook, which hands the
+	// processor to another runnable goroutine with a per-run probability (0 = never). The
+	// decisions come from a generator seeded by one tape cell, so that they neither race
+	// with nor shift the harness's own draws.
+	every := []int{0, 2, 3, 5, 9, 17}[tp.Intn(6)]
+	// Stalled goroutines ("slow thread" fault): in half of the runs a goroutine of the
+	// simulated system may be parked at an unlock - only while the harness waits, and only
+	// when no simsync lock is held by anyone, so that nobody can queue up behind it - and
+	// stays parked while the harness goes on with 1..8 further events. Invariants are
+	// evaluated at quiescent points only, i.e. never while a goroutine is parked.
+	stallEvery := []int{0, 0, 0, 13, 29, 61}[tp.Intn(6)]
+	var stalled []chan struct{}
+	armed := 0 // > 0: park the goroutine that passes the armed-th eligible unlock from now on
+	focusTeardown := tp.Chance(1, 3)
+	if every > 0 || stallEvery > 0 || focusTeardown {
+		ys := tp.Uint64() | 1
+		var ymu sync.Mutex
+		simsync.Blocking = true
+		simsync.Yield = func(op string) {
+			ymu.Lock()
+			ys += 0x9e3779b97f4a7c15
+			z := ys
+			z = (z ^ (z >> 30)) * 0xbf58476d1ce4e5b9
+			z = (z ^ (z >> 27)) * 0x94d049bb133111eb
+			z ^= z >> 31
+			ymu.Unlock()
+			eligible := (op == "unlock" || op == "runlock") && simnet.Waiting && len(stalled) == 0 && simsync.Held() == 0
+			if eligible && armed > 0 {
+				armed--
+				if armed > 0 {
+					eligible = false
+				}
+			} else if eligible && !(stallEvery > 0 && (z>>24)%uint64(stallEvery) == 0) {
+				eligible = false
+			}
+			if eligible {
+				ch := make(chan struct{})
+				stalled = append(stalled, ch)
+				stalls.Add(1)
+				<-ch
+				return
+			}
+			if every > 0 && z%uint64(every) == 0 {
+				yields.Add(1)
+				runtime.Gosched()
+			}
+		}
+		e.Cleanup(func() {
+			simsync.Yield = nil
+			simsync.Blocking = false
+			for _, ch := range stalled {
+				close(ch)
+			}
+			stalled = nil
+			e.ProbeN("lock_boundary_task_switches", int(yields.Swap(0)))
+			if k := int(stalls.Swap(0)); k > 0 {
+				e.ProbeN("goroutine_parked_at_unlock", k)
+				e.Faults["stalled_goroutine"] += k
+			}
+		})
+		e.Probe("runs_with_lock_boundary_switches")
+	}
+	stallAge := 0
+	// settle releases parked goroutines when their time is up (or all of them) and
+	// reports whether the system is at a quiescent point.
+	settle := func(all bool) bool {
+		if len(stalled) > 0 {
+			stallAge++
+			if all || stallAge > 1+tp.Intn(8) {
+				for _, ch := range stalled {
+					close(ch)
+				}
+				stalled = nil
+				stallAge = 0
+				simnet.Wait()
+			}
+		}
+		return len(stalled) == 0
+	}
 	cn := simnet.NewConnNet(e)
 	n := 2 + tp.Intn(4)
 	perm := tp.Perm(12)
@@ -195,9 +281,66 @@ func run(e *core.Env) {
 					fail("setup-panic:"+core.PanicClass(a.Result.Panic), "link setup panicked")
 				}
 			}
-			invariants()
+			if settle(false) {
+				invariants()
+			}
 		}
 		e.Probe("focused_cross_connect")
+	}
+
+	// Focused teardown-versus-reconnect in a third of the runs: an honest link, one end closes
+	// it, the other end's teardown is parked at its k-th lock boundary (k = 1..8), and while it
+	// is parked the two routers run a complete new handshake; then the teardown finishes.
+	if focusTeardown {
+		i := tp.Intn(n)
+		j := tp.Intn(n - 1)
+		if j >= i {
+			j++
+		}
+		time.Sleep(time.Duration(1000+tp.Intn(500)) * time.Millisecond)
+		atts = append(atts, linkpair.Dial(cn, S[i], S[j]))
+		note("dial r%d>r%d (conn %d)", i, j, atts[len(atts)-1].Pair.ID)
+		cn.DrainFIFO(tp, 300)
+		settle(true)
+		li, lj := S[i].Node.Peering.GetLink(S[j].Node.IP), S[j].Node.Peering.GetLink(S[i].Node.IP)
+		learn(li, i, "found in registry")
+		learn(lj, j, "found in registry")
+		if li != nil && lj != nil && !li.IsClosing() && !lj.IsClosing() {
+			closer, other := i, j
+			if tp.Chance(1, 2) {
+				closer, other = j, i
+			}
+			S[closer].Node.Peering.CloseLink(S[other].Node.IP)
+			simnet.Wait()
+			note("r%d: CloseLink(r%d), teardown at r%d parked at its lock boundary", closer, other, other)
+			armed = 1 + tp.Intn(8)
+			cn.DrainFIFO(tp, 100) // delivers the EOF; the other end's teardown starts
+			armed = 0
+			parked := len(stalled) > 0
+			time.Sleep(time.Duration(2+tp.Intn(50)) * time.Millisecond)
+			from, to := closer, other
+			if tp.Chance(1, 2) {
+				from, to = other, closer
+			}
+			atts = append(atts, linkpair.Dial(cn, S[from], S[to]))
+			note("dial r%d>r%d (conn %d) while the teardown is parked=%v", from, to, atts[len(atts)-1].Pair.ID, parked)
+			cn.DrainFIFO(tp, 300)
+			settle(true)
+			cn.DrainFIFO(tp, 300)
+			for _, a := range atts {
+				if a.Result.Done && a.Result.Link != nil {
+					learn(a.Result.Link, byIP[a.Client.Node.IP], "returned by link setup")
+				}
+				if a.Result.Panic != "" {
+					fail("setup-panic:"+core.PanicClass(a.Result.Panic), "link setup panicked")
+				}
+			}
+			invariants()
+			if parked {
+				e.Probe("reconnect_during_parked_teardown")
+				e.Nontrivial()
+			}
+		}
 	}
 
 	nSteps := 10 + tp.Intn(70)
@@ -245,7 +388,11 @@ func run(e *core.Env) {
 			}
 			k := live[tp.Intn(len(live))]
 			if tp.Chance(1, 2) {
-				k.l.Close(nil)
+				if tp.Chance(1, 2) {
+					k.l.Close(nil)
+				} else {
+					go k.l.Close(nil) // as a worker of the router would: may be slowed down like any other
+				}
 				note("r%d: Close link to %s (conn %d)", k.at, name(byIP, k.l.Peer()), k.conn)
 			} else {
 				S[k.at].Node.Peering.CloseLink(k.l.Peer())
@@ -302,9 +449,14 @@ func run(e *core.Env) {
 				fail("setup-panic:"+core.PanicClass(a.Result.Panic), "link setup panicked")
 			}
 		}
-		invariants()
+		if settle(false) {
+			invariants()
+		}
 	}
 	// Drain and check once more.
+	settle(true)
+	cn.DrainFIFO(tp, 3000)
+	settle(true)
 	cn.DrainFIFO(tp, 3000)
 	invariants()
 	live := 0
